@@ -63,6 +63,14 @@ StrAt(k) ==  \* k in 0..NStrings-1
       F(x, n) == IF x < Pw(n) THEN TokStr(x, n) ELSE F(x - Pw(n), n + 1)
   IN F(k, 1)
 
+\* longer strings than the token enumeration reaches (also used by C07): whatever the parser accepts must
+\* print to a fixed point of parse-then-print
+ProbeStrs == SetToSeq({"join(7..3,4..1)", "join(2..1,2..1)", "join(5..4,5..2)", "order(1..2,join(<9..8,9..>3))", "3..1", "0..0", "1..0",
+   "join(complement(join(1..2,3..4)),5)", "join(1,1,1,1,1,1,1,1,1,1)", "complement(complement(complement(1)))", "order(join(order(1,2),3),4)",
+   "join(3..1,1..3)", "join(1..3,3..1)", "join(<1..>1,<1..>1)", "complement(join(9..7,7..5))", "join(1^2,2..1)", "join(4..6,7..5)", "order(2..1)",
+   "join(join(6,5^6),6)", "join(complement(6),complement(join(6,5^6)))", "order(order(1..2,4..5),7..8)", "order(order(1,3),4^5,7..9)",
+   "join(complement(7..9),complement(join(1..2,4..6)))", "join(1..>3,<7..9)", "join(12..34,56..78)", "complement(join(100..200,300..>400))",
+   "join(1..2,3..4,5..6,7..8,9..10,11..12,13..14,15..16,17..18,19..20,21..22,23..24)", "1.5", "join(1.5,7.9)", "order(<1..2,3^4,5,6..>7)"})
 NItems == IF Mode = "terms" THEN Len(TermSeq) ELSE NStrings
 NBatches == (NItems + Batch - 1) \div Batch
 PickedB == SelectSeq([j \in 1..NBatches |-> j], LAMBDA j : j % Stride = Offset % Stride)
@@ -72,7 +80,9 @@ BatchJson(b) ==
       n == IMin(Batch, NItems - lo)
   IN IF Mode = "terms"
      THEN [id |-> "t" \o ToString(b), terms |-> [j \in 1..n |-> TermSeq[lo + j]], strings |-> <<>>]
-     ELSE [id |-> "s" \o ToString(b), terms |-> <<>>, strings |-> [j \in 1..n |-> StrAt(lo + j - 1)]]
+     ELSE [id |-> "s" \o ToString(b), terms |-> <<>>,
+           \* the probes ride on the first batch of whatever sample is taken
+           strings |-> [j \in 1..n |-> StrAt(lo + j - 1)] \o (IF b = PickedB[1] THEN ProbeStrs ELSE <<>>)]
 
 \* design check of one raw term on the calculus layer
 TermVerdicts(t) ==
